@@ -255,6 +255,11 @@ TARGETS = [
          opt_calls={"Self::from_le_bytes": ("tr_key_public_from_le_bytes", ("sum", ("arr", "u8")))}),
     dict(name="key_client_try_from_bigint", file="src/key.rs", fn="client_try_from_bigint", kind="formula", big_params=["b"], prime_params=["large_safe_prime"],
          structs={"Self": ["key"]}),
+    dict(name="key_macro_default", file="src/key.rs", fn="default", kind="function", ret=("arr", "u8"), tape=True,
+         subst={"$size": "KEY_SIZE", "$name": "KeyName"}, consts={"KEY_SIZE": ("key_size", "usize")}, extra_params=["key_size : N"],
+         identity=["Self::from_le_bytes"]),
+    dict(name="key_macro_from_bigint", file="src/key.rs", fn="from", kind="formula", big_params=["b"], structs={"Self": ["key"]},
+         subst={"$size": "KEY_SIZE", "$name": "KeyName"}, consts={"KEY_SIZE": ("key_size", "usize")}, extra_params=["(key_size : N)"]),
     dict(name="normalized_string_new", file="src/normalized_string.rs", fn="inner", kind="function", ret="nstr_view + ns_error",
          consts={"MAXIMUM_STRING_LENGTH_IN_BYTES": ("max_string_length", "u8")}),
     dict(name="normalized_string_from_str", file="src/normalized_string.rs", fn="from_str", kind="function", ret="nstr_view + ns_error", opt_calls={"Self::new": ("tr_normalized_string_new", "res")}),
@@ -279,6 +284,23 @@ TARGETS = [
     dict(name="matrix_from_data", file="src/matrix_card.rs", fn="from_data", kind="function", ret="option (N * N * N * list N)",
          structs={"Self": ["digit_count", "width", "height", "data"]}, byte_types=["Vec<u8>"],
          opt_calls={"Self::get_matrix_card_size": ("tr_matrix_get_matrix_card_size", "usize")}),
+    dict(name="matrix_acc_data", file="src/matrix_card.rs", fn="data", kind="method", helpers=[], readonly=True, fields=[("digit_count", "u8"), ("width", "u8"), ("height", "u8"), ("data", ("arr", "u8"))], ret=("arr", "u8")),
+    dict(name="matrix_acc_width", file="src/matrix_card.rs", fn="width", kind="method", helpers=[], readonly=True, fields=[("digit_count", "u8"), ("width", "u8"), ("height", "u8"), ("data", ("arr", "u8"))], ret="u8"),
+    dict(name="matrix_acc_height", file="src/matrix_card.rs", fn="height", kind="method", helpers=[], readonly=True, fields=[("digit_count", "u8"), ("width", "u8"), ("height", "u8"), ("data", ("arr", "u8"))], ret="u8"),
+    dict(name="matrix_acc_digit_count", file="src/matrix_card.rs", fn="digit_count", kind="method", helpers=[], readonly=True, fields=[("digit_count", "u8"), ("width", "u8"), ("height", "u8"), ("data", ("arr", "u8"))], ret="u8"),
+    dict(name="vanilla_proof_seed_seed", file="src/vanilla_header/mod.rs", fn="seed", kind="method", helpers=[], readonly=True, fields=[("seed", "u32")], ret="u32"),
+    dict(name="vanilla_proof_seed_new", file="src/vanilla_header/mod.rs", fn="new", nth=1, kind="function", ret="u32", tape=True, tape_calls={"Self::default": ("tr_vanilla_proof_seed_default", "u32")}),
+    dict(name="tbc_proof_seed_seed", file="src/tbc_header/mod.rs", fn="seed", kind="method", helpers=[], readonly=True, fields=[("seed", "u32")], ret="u32"),
+    dict(name="tbc_proof_seed_new", file="src/tbc_header/mod.rs", fn="new", nth=1, kind="function", ret="u32", tape=True, tape_calls={"Self::default": ("tr_tbc_proof_seed_default", "u32")}),
+    dict(name="wrath_proof_seed_seed", file="src/wrath_header/mod.rs", fn="seed", kind="method", helpers=[], readonly=True, fields=[("seed", "u32")], ret="u32"),
+    dict(name="wrath_proof_seed_new", file="src/wrath_header/mod.rs", fn="new", nth=2, kind="function", ret="u32", tape=True, tape_calls={"Self::default": ("tr_wrath_proof_seed_default", "u32")}),
+    dict(name="primes_lsp_default", file="src/primes.rs", fn="default", nth=0, kind="function", ret=("arr", "u8"), structs={"Self": ["prime"]}),
+    dict(name="primes_lsp_from_le_bytes", file="src/primes.rs", fn="from_le_bytes", kind="function", ret=("arr", "u8"), structs={"Self": ["prime"]},
+         consts={"LARGE_SAFE_PRIME_LENGTH": ("large_safe_prime_length", "u8")}),
+    dict(name="primes_lsp_as_le_bytes", file="src/primes.rs", fn="as_le_bytes", kind="method", helpers=[], readonly=True, fields=[("prime", ("arr", "u8"))], ret=("arr", "u8")),
+    dict(name="primes_generator_default", file="src/primes.rs", fn="default", nth=1, kind="function", ret="u8", structs={"Self": ["generator"]}, consts={"GENERATOR": ("generator", "u8")}),
+    dict(name="primes_generator_as_u8", file="src/primes.rs", fn="as_u8", kind="method", helpers=[], readonly=True, fields=[("generator", "u8")], ret="u8"),
+    dict(name="primes_generator_from", file="src/primes.rs", fn="from", kind="function", ret="u8", structs={"Self": ["generator"]}),
     dict(name="matrix_verifier_new", file="src/matrix_card.rs", fn="new", nth=1, kind="function",
          ret="N * N * N * list N * (list N * list N) * (list N * N * N)",
          structs={"Self": ["challenge_count", "height", "width", "coordinates", "hmac", "rc4"]},
@@ -512,13 +534,15 @@ def method(t, src):
 
 def formula(t, src):
     """a big-integer formula of srp_internal(.rs|_client.rs): byte arrays in, modelled integer operations"""
+    for a_, b_ in t.get("subst", {}).items(): src = src.replace(a_, b_)
     ps, ret, body = free_fn(src, t["fn"], t.get("nth", 0))
     env, names = {}, []
     for name, ty in ps:
         if name in t.get("big_params", ()): env[name] = ("v_" + name, "big"); names.append("(v_%s : Z)" % name)
         elif name in t.get("gen_params", ()): env[name] = ("v_" + name, "u8"); names.append("(v_%s : N)" % name)
         else: env[name] = ("v_" + name, ("arr", "u8")); names.append("(v_%s : list N)" % name)
-    g = Gen(env, dict(CONSTS))
+    consts_f = dict(CONSTS); consts_f.update(t.get("consts", {}))
+    g = Gen(env, consts_f)
     g.identity_calls = set(IDENTITY) | {"SKey::from_le_bytes"}
     g.calls = dict(t.get("calls", {})); g.opt_calls = dict(t.get("opt_calls", {})); g.structs = dict(t.get("structs", {})); g.enums = dict(ENUMS)
     g.big = dict(be="be", into=t.get("into"), gen_params=set(t.get("gen_params", ())), prime_params=set(t.get("prime_params", ())),
@@ -528,11 +552,13 @@ def formula(t, src):
         if tail is None: raise Untranslatable("formula without a result")
         return tail[0] if tail[1] == "resopt" else "Some %s" % tail[0]
     text = g.stmts(blk, final)
+    names = list(t.get("extra_params", [])) + names
     head = "Definition tr_%s (be : backend) %s :=\n  %s." % (t["name"], " ".join(names), text)
     return "(* %s fn %s *)\n%s" % (t["file"], t["fn"], head)
 
 def function(t, src):
     """free function: parameters by value or &mut array; result = (mutable array params.., tail value)"""
+    for a_, b_ in t.get("subst", {}).items(): src = src.replace(a_, b_)
     ps, ret, body = free_fn(src, t["fn"], t.get("nth", 0))
     env, names, muts = {}, [], []
     sparams = t.get("struct_params", {})
@@ -553,7 +579,7 @@ def function(t, src):
     g.enums = dict(ENUMS); g.ctor_calls = dict(CTORS); g.structs = dict(STRUCTS_FN); g.opt_calls = dict(t.get("opt_calls", {}))
     g.structs.update(t.get("structs", {}))
     g.mut_method_calls = dict(t.get("mut_method_calls", {})); g.try_into_len = t.get("try_into_len")
-    g.match_patterns = dict(t.get("match_patterns", {}))
+    g.match_patterns = dict(t.get("match_patterns", {})); g.tape_calls = dict(t.get("tape_calls", {}))
     g.struct_params = {n_: [f_ for f_, _ in fs_] for n_, fs_ in sparams.items()}
     g.param_method_calls = dict(t.get("param_method_calls", {})); g.struct_method_calls = dict(t.get("struct_method_calls", {}))
     g.method_calls = dict(t.get("method_calls", {})); g.identity_calls = set(t.get("identity", []))
@@ -663,6 +689,19 @@ def main():
             order.extend(pending); break
     for n, txt in order:
         out.append(txt); out.append("")
+    # the instantiations of the key macros of src/key.rs: which type gets which size (and so how many bytes
+    # `Default` draws and `From<Integer>` pads to)
+    KSIZE = {"SALT_LENGTH": "salt_length", "PRIVATE_KEY_LENGTH": "private_key_length", "PUBLIC_KEY_LENGTH": "public_key_length",
+             "SHA1_HASH_LENGTH": "sha1_hash_length", "PASSWORD_VERIFIER_LENGTH": "large_safe_prime_length", "PROOF_LENGTH": "proof_length",
+             "S_LENGTH": "s_length", "RECONNECT_CHALLENGE_DATA_LENGTH": "reconnect_challenge_data_length", "SESSION_KEY_LENGTH": "session_key_length"}
+    ksrc = strip_comments(open(os.path.join(REPO, "src/key.rs")).read())
+    out.append("(* src/key.rs: macro instantiations  macro!(Type; SIZE as usize) *)")
+    for m in re.finditer(r"^\s*(key_new|key_wrapper|key_no_checks_initialization)!\(\s*(\w+)\s*;\s*([^)]*?)\s*(?:as\s+usize)?\s*\)\s*;", ksrc, flags=re.M):
+        mac, ty, size = m.group(1), m.group(2), m.group(3).strip()
+        val = KSIZE.get(size, size if re.fullmatch(r"\d+", size) else None)
+        if val is None: out.append("(* %s!(%s; %s): size expression not understood *)" % (mac, ty, size)); continue
+        out.append("Definition inst_%s_%s : N := %s." % (mac, ty, val))
+    out.append("")
     text = "\n".join(out) + "\n"
     old = open(OUT).read() if os.path.exists(OUT) else None
     if old != text:
